@@ -590,9 +590,18 @@ def write_evidence(prop, tier, seed, hs, res, cls, violations, known_hits, uncon
             "vccs": st.get("vccs_remaining", 0), "stubs": ["%s -> %s" % s for s in h.stubs],
         })
     samples = []
-    for h in hs[:6]:
+    per = {}
+    for (n, l) in obligations:
+        per.setdefault(n, []).append(l)
+    seen_roles = set()
+    # written-out cases: the harnesses with the most decided obligations, one per role (operation family)
+    for h in sorted(hs, key=lambda h: -len(per.get(h.name, []))):
+        if h.role in seen_roles or len(samples) >= 6:
+            continue
+        seen_roles.add(h.role)
         samples.append({"harness": h.name, "instantiation": h.inst, "domain": h.domain, "entry_points": h.fns,
-                        "obligations": sorted(l for (n, l) in obligations if n == h.name)[:8]})
+                        "free_input_bits": h.free_bits, "unwind": h.unwind,
+                        "obligations": sorted(per.get(h.name, []))[:10]})
     for k, rec in known_hits[:6]:
         samples.append({"known_finding": k["id"], "harness": rec["harness"], "input_tape": rec["tape"],
                         "native": rec["what"], "profiles": rec["profiles"]})
